@@ -2,7 +2,7 @@
    (or a one-line instantiation) and followed by Print Assumptions.  One file per property, importing only
    what that property's statements need, so that a change which breaks one property's proof leaves the
    others' theorems checkable. *)
-From NTRIP Require Import Base Bits Time Classify Frame FrameSpec FrameProofs SegProofs.
+From NTRIP Require Import Base Bits Time Classify Frame FrameSpec FrameProofs SegProofs BadFrame.
 
 (* ===================== C12 ===================== *)
 (* If in such a stream the payload or CRC bytes of one frame are altered (same length, same
@@ -15,6 +15,22 @@ Theorem C12_isolation : forall h pre post f' tail,
                 map core ms = expected pre [] ++ [((-1)%Z, f')] ++ expected post tail.
 Proof. exact corrupted_frame_isolated. Qed.
 Print Assumptions C12_isolation.
+
+(* The full-message form: a corrupted frame met at a frame boundary is delivered alone and leaves
+   nothing behind - neither in the handler's time state nor in the scanner - so whatever follows
+   it (any bytes at all) is reported in full, times and final handler state included, exactly as
+   the handler reports the rest of the stream on its own from the same state. *)
+Theorem C12_transparent : forall h f', bad_frame f' ->
+  exists m, core m = ((-1)%Z, f') /\
+    forall fuel rest,
+      handle (S fuel) h (st (f' ++ rest)) =
+      match handle fuel h (st rest) with
+      | Ok (ms, h') => Ok (m :: ms, h')
+      | Err e => Err e
+      | Panic => Panic
+      end.
+Proof. exact bad_frame_transparent. Qed.
+Print Assumptions C12_transparent.
 
 Example C12_example :
   let f := [211; 0; 19; 62; 208; 2; 12; 10; 88; 246; 126; 253; 63; 255; 237; 41; 121; 12; 239; 94; 128; 227; 229; 56; 76]%N in
